@@ -54,6 +54,12 @@ theorem C11_unary (op : Int → Int) (s : RTree) :
     den (.un op s) = (do let a ← den s; pure [op a.sum]) := by
   rw [den]
 
+/-- a custom operator that combines RollOutcome operations in several steps applies their composition
+to the sum of the source's outcomes -/
+theorem C11_custom_chain (ops : List (Int → Int)) (s : RTree) :
+    den (.unChain ops s) = (do let a ← den s; pure [ops.foldl (fun v f => f v) a.sum]) := by
+  rw [den]
+
 theorem C11_filter (p : Int → Bool) (srcs : List RTree) :
     den (.filt p srcs) = (do let vs ← den (.pool srcs); pure (vs.filter p)) := by
   rw [den, den]
